@@ -19,7 +19,19 @@ import (
 // overflow-free arithmetic. Plus: huge count arguments on ordinary slices, and sampling from
 // [0, n) for n up to MaxInt.
 
-var astroLens = []int{math.MaxInt, math.MaxInt - 1, math.MaxInt/2 + 2, math.MaxInt/2 + 1, math.MaxInt / 2, 1<<62 + 1, 1 << 62, 1 << 61, 1 << 40}
+// (derived from MaxInt so that the same scenarios exist on 32-bit platforms: MaxInt/2+1 is 2^62 or 2^30)
+var astroLens = []int{math.MaxInt, math.MaxInt - 1, math.MaxInt/2 + 3, math.MaxInt/2 + 2, math.MaxInt/2 + 1, math.MaxInt / 2, math.MaxInt/4 + 1, math.MaxInt>>23 + 1}
+
+// hugeNs: the n of the huge-range sampling tables, and from which n on only positions above 2^54
+// enter the low-bit tables. 64-bit values are skipped when int has 32 bits.
+func hugeNs() (ns []int, lowBitFrom int64, threshold int64) {
+	for _, v := range []int64{1 << 30, math.MaxInt32 - 1, math.MaxInt32, 1 << 40, 1 << 53, 1<<54 + 3, 1 << 55, 1 << 56, 1 << 58, 1 << 62, math.MaxInt64 - 1, math.MaxInt64} {
+		if v <= math.MaxInt {
+			ns = append(ns, int(v))
+		}
+	}
+	return ns, 1 << 55, 1 << 54
+}
 
 func astroZeroSize[T comparable](x *cx, tn string) {
 	var zero T
@@ -321,9 +333,13 @@ func astroCounts(x *cx) {
 // the value mod 2, 3, 4, 8, 16 and 256. For n >= 2^55 only values above 2^54 enter the low-bit
 // tables (there a position computed in float64 would lose its low bits).
 func astroSample(x *cx, rnd *vkit.Rand) {
-	const draws = 40000
+	draws := 40000
+	if slow32 {
+		draws = 4000
+	}
 	mods := []int{2, 3, 4, 8, 16, 256}
-	for _, n := range []int{1 << 40, 1 << 53, 1<<54 + 3, 1 << 55, 1 << 56, 1 << 58, 1 << 62, math.MaxInt - 1, math.MaxInt} {
+	ns, lowBitFrom, above := hugeNs()
+	for _, n := range ns {
 		for _, k := range []int{1, 3} {
 			if x.failed {
 				return
@@ -331,8 +347,8 @@ func astroSample(x *cx, rnd *vkit.Rand) {
 			r := rand.New(rand.NewSource(int64(rnd.Uint64() >> 1)))
 			upper, total := 0, 0
 			threshold := 0
-			if n >= 1<<55 {
-				threshold = 1 << 54
+			if int64(n) >= lowBitFrom {
+				threshold = int(above)
 			}
 			tables := make([][]int, len(mods))
 			for i, m := range mods {
@@ -374,7 +390,7 @@ func astroSample(x *cx, rnd *vkit.Rand) {
 			}
 			x.eval(fmt.Sprint("astro|RSample|", n, "|", k))
 			share := float64(upper) / float64(total)
-			x.observe("astronomic", "RSample tables with n >= 2^40")
+			x.observe("astronomic", "RSample tables with huge n")
 			x.r.Max("astronomic RSample: |share of draws in the upper half of [0,n) - 50%|, per mille", fmt.Sprintf("n = %d", n), int(math.Abs(share-0.5)*1000))
 			if share < 0.40 || share > 0.60 {
 				x.fail("sample-huge-n", fmt.Sprintf("RSample(n = %d, k = %d): of %d seeded draws (%d values) %.1f%% lie in the upper half of [0, n); picked uniformly it would be 50%% +- 0.3%%", n, k, draws, total, 100*share),
